@@ -190,7 +190,7 @@ CHECKS["C08"] = dict(
     technique="property-based testing (Hypothesis), metamorphic: re-encodings of the same measures (scale, zero-weight support, permutation, split, duplicate), memory / chunk size variation, input-format differential, isometry against an LP-certified reference",
     text="A fitted Wasserstein-style model is applied to re-encoded transform inputs drawn from the group generated by row scaling, "
          "zero-weight support points (explicit zeros), support permutation, splitting into duplicates and row duplication; the rows must "
-         "be unchanged. transform must agree across memory_size / chunk sizes; spmatrix, lil and generator inputs with shared references "
+         "be unchanged, also when max_distribution_size truncates the rows (distinct weights, no splitting). transform must agree across memory_size / chunk sizes; spmatrix, lil and generator inputs with shared references "
          "must give equal embeddings; with full-rank n_components the pairwise distances of embedding_ must equal those of the "
          "uncompressed LOT vectors (euclidean: own optimal plans certified by a dual bound; cosine: the module's uncompressed vectors). "
          "Exploration.",
